@@ -154,9 +154,10 @@ def compare(obs: List[Dict[str, Any]], exp: List[Dict[str, Any]], spans: List[Tu
                 diff.setdefault("failed_end_noncanonical", f"failed block {i} ends at {t}, canonical {e['end']}")
         else:
             if spans[i][0] != e["start"] or o["raw"] != e["raw"]:
-                diff.setdefault("blocks", f"block {i} ({c}) raw {o['raw'][:60]!r} expected {e['raw'][:60]!r}")
+                diff.setdefault("raw", f"block {i} ({c}) raw {o['raw'][:60]!r} expected {e['raw'][:60]!r}")
             for k in CONTENT_KEYS[c]:
-                if o.get(k) != e.get(k):
+                ov, ev = o.get(k), e.get(k)
+                if (ov.strip() if isinstance(ov, str) else ov) != (ev.strip() if isinstance(ev, str) else ev):
                     diff.setdefault("content", f"block {i} ({c}) {k}={o.get(k)!r} expected {e.get(k)!r}")
             if c in ("entry", "dupfield"):
                 of, ef = o["fields"], e["fields"]
